@@ -2,7 +2,21 @@
 from cq import *
 
 PROP = "C03"
+import re
+
 KNOWN = {1: "param_nested_in_function_dropped", 2: "param_twice_in_one_call_duplicated", 3: "param_without_context_dropped"}
+
+
+def classify(known, c, r):
+    if known in KNOWN:
+        return KNOWN[known]
+    q = c["queries"]
+    # the two C04 defects that garble the text of a named parameter also change the placeholders of the embedded SQL
+    if re.search(r"@\w+::[\w\[\]]+::", q):
+        return "named_parameter_with_two_casts"
+    if re.search(r"sqlc\.arg\(\s+|sqlc\.arg\([^)]*\s\)|sqlc\.arg\(\"", q):
+        return "sqlc_arg_spelling_changes_replaced_length"
+    return None
 
 
 def run(tier, seed):
@@ -11,4 +25,4 @@ def run(tier, seed):
         rule="random schemas (1-3 tables, reserved-word names, enum/array columns) and single annotated statements of the supported grammar (SELECT with joins/sub-selects/CTEs/UNION, INSERT/UPDATE/DELETE with RETURNING) with placeholders in every clause, positional (shuffled, repeated) or sqlc.arg/@name; every case is distinct (hash of schema+query) and non-trivial",
         assumptions=["the engine's SQL parser is not modelled: the model consumes the AST the real parser produced for the same text",
                      "the placeholders a database sees are those found by the lexer Spec/Placeholders.v in the embedded SQL"],
-        tier=tier, seed=seed, what="embedded SQL placeholders and parameter list disagree")
+        tier=tier, seed=seed, what="embedded SQL placeholders and parameter list disagree", classify=classify)
